@@ -211,6 +211,17 @@ func c12Sim(t *testing.T, run *Run, sc c12Scenario) {
 			}
 		}
 		_ = repeated
+		if i == 0 && sc.Idx%2 == 0 && rec.Err == "" && len(c.Targets) >= 2 {
+			// from now on one target of the first service fails its health checks (it keeps serving
+			// requests): which targets a service has is configuration, how they are doing is not
+			if ft := w.Target(c.Targets[len(c.Targets)-1]); ft != nil {
+				ft.mu.Lock()
+				ft.Probe = failProbe
+				ft.mu.Unlock()
+				time.Sleep(7 * time.Second)
+				run.Count("histories_with_a_target_failing_its_probes", 1)
+			}
+		}
 		fileStale = blocked // the save of this command could not succeed: the file is the previous snapshot
 		if rec.Panic != "" {
 			fail("panic:"+c.Kind, "command panicked: %s", rec.Panic)
